@@ -75,6 +75,8 @@ var otherVariants = []map[string]string{
 	{"o.lua": otherLua},
 	{},
 	{"o.lua": "a = 1\n"},
+	// the defining file uses its global again: a rename or reference search asked from m.lua must reach these too
+	{"o.lua": "function b() end\nprint(b)\nb()\n"},
 }
 
 // scopeCase is one program plus its reference analysis.
